@@ -23,7 +23,64 @@ const (
 	kRecList
 	kSet
 	kAbs // a named Go type (an interface such as a hash or MAC object) represented by an abstract Lean type (-abs)
+	kOpt // *string, *uint32, *bool, …: a pointer to a basic value that is only tested for nil, dereferenced, or made by &x: Option
 )
+
+// optElem: the pointee of a pointer to a basic value
+func optElem(ty types.Type) (types.Type, bool) {
+	p, ok := ty.Underlying().(*types.Pointer)
+	if !ok {
+		return nil, false
+	}
+	if _, isBasic := p.Elem().Underlying().(*types.Basic); !isBasic {
+		return nil, false
+	}
+	if k, _ := classifyBasicAny(p.Elem()); k == kBad {
+		return nil, false
+	}
+	return p.Elem(), true
+}
+
+func classifyBasicAny(ty types.Type) (kind, int) {
+	if b, ok := ty.Underlying().(*types.Basic); ok {
+		switch b.Kind() {
+		case types.Uint8:
+			return kByte, 8
+		case types.Uint16, types.Uint32, types.Uint64, types.Uint:
+			return kNat, 64
+		case types.Int32, types.Int, types.Int64:
+			return kInt, 64
+		case types.Bool:
+			return kBool, 0
+		case types.String:
+			return kBytes, 0
+		}
+	}
+	return kBad, 0
+}
+
+// listElem: element type of a slice that is translated as a Lean List (records, abstract objects, strings, byte slices)
+func listElem(ty types.Type) (types.Type, bool) {
+	sl, ok := ty.Underlying().(*types.Slice)
+	if !ok {
+		return nil, false
+	}
+	if len(recordSpecs) > 0 && recordOf(sl.Elem()) != nil {
+		return sl.Elem(), true
+	}
+	if _, ok := absTypeOf(sl.Elem()); ok {
+		return sl.Elem(), true
+	}
+	if k, _ := classifyBasicAny(sl.Elem()); k == kBytes {
+		return sl.Elem(), true // []string
+	}
+	if in, ok := sl.Elem().Underlying().(*types.Slice); ok {
+		if k, _ := classifyBasicAny(in.Elem()); k == kByte {
+			return sl.Elem(), true // [][]byte
+		}
+	}
+	return nil, false
+}
 
 // absTypes: pkgpath.Type -> name of the Lean type variable standing for it (current unit)
 var absTypes map[string]string
@@ -43,6 +100,12 @@ func absTypeOf(ty types.Type) (string, bool) {
 	}
 	if n, ok := ty.(*types.Named); ok && n.Obj().Pkg() != nil {
 		s, ok := absTypes[n.Obj().Pkg().Path()+"."+n.Obj().Name()]
+		return s, ok
+	}
+	switch ty.(type) {
+	case *types.Map, *types.Signature:
+		// an unnamed map / function type named by its printed form: -abs 'map[string]*pkg/path.T=Name'
+		s, ok := absTypes[types.TypeString(ty, nil)]
 		return s, ok
 	}
 	return "", false
@@ -154,7 +217,15 @@ func leanTypeStatic(ty types.Type) string {
 	case kRec:
 		return recordOf(ty).lean
 	case kRecList:
-		return "List " + recordOf(ty.Underlying().(*types.Slice).Elem()).lean
+		el, _ := listElem(ty)
+		es := leanTypeStatic(el)
+		if strings.Contains(es, " ") {
+			es = "(" + es + ")"
+		}
+		return "List " + es
+	case kOpt:
+		el, _ := optElem(ty)
+		return optOf(leanTypeStatic(el))
 	case kSet:
 		kk, _ := classify(ty.Underlying().(*types.Map).Key())
 		return "List " + leanTypeOfKind(kk)
@@ -170,9 +241,12 @@ func classifyRecord(ty types.Type) (kind, bool) {
 		if recordOf(ty) != nil {
 			return kRec, true
 		}
-		if sl, ok := ty.Underlying().(*types.Slice); ok && recordOf(sl.Elem()) != nil {
-			return kRecList, true
-		}
+	}
+	if _, ok := listElem(ty); ok {
+		return kRecList, true
+	}
+	if _, ok := optElem(ty); ok {
+		return kOpt, true
 	}
 	if m, ok := ty.Underlying().(*types.Map); ok {
 		isSetElem := false
@@ -307,6 +381,15 @@ func (t *tr) recField(e ast.Expr) (string, bool) {
 
 // nilTest: `x == nil` / `x != nil` for a record pointer or a pointer-typed record path
 func (t *tr) nilTest(e ast.Expr) (string, bool) {
+	if k, _ := t.kindOf(e); k == kOpt {
+		return "((" + t.expr(e) + ").isSome = false)", true
+	}
+	if k, _ := t.kindOf(e); k == kAbs {
+		an, _ := absTypeOf(t.typeOf(e))
+		if t.f.hasBinder(an + "_isNil") {
+			return "((" + an + "_isNil " + t.expr(e) + ") = true)", true
+		}
+	}
 	if k, _ := t.kindOf(e); k == kRec {
 		return "((" + t.expr(e) + ").isNil = true)", true
 	}
@@ -351,7 +434,8 @@ func (t *tr) rangeStmt(x *ast.RangeStmt, rest []ast.Stmt, depth int, k func() st
 	}
 	written := t.assignedObjs(x.Body.List)
 	list := t.expr(x.X)
-	ri := recordOf(t.typeOf(x.X).Underlying().(*types.Slice).Elem())
+	elTy, _ := listElem(t.typeOf(x.X))
+	elLean := leanTypeStatic(elTy)
 	var iobj, vobj types.Object
 	iname, vname := "i__", "x__"
 	if id, ok := x.Key.(*ast.Ident); ok && id.Name != "_" {
@@ -394,7 +478,7 @@ func (t *tr) rangeStmt(x *ast.RangeStmt, rest []ast.Stmt, depth int, k func() st
 	iname, vname = fmt.Sprintf("i%d", f.loopN), fmt.Sprintf("x%d", f.loopN) // canonical, not the Go names
 	savedB, savedEnv, savedName := f.binders, t.cloneEnv(), f.name
 	outerArgs, outerDecl := f.args(), f.binderDecl()
-	f.binders = append(append([]binder{}, f.binders...), binder{sn, sigma}, binder{iname, "Int"}, binder{vname, ri.lean})
+	f.binders = append(append([]binder{}, f.binders...), binder{sn, sigma}, binder{iname, "Int"}, binder{vname, elLean})
 	if iobj != nil {
 		f.env[iobj] = iname
 	}
